@@ -36,6 +36,7 @@ ATTR_SWAP = {"raw_user": "user", "user": "raw_user", "raw_password": "password",
              "rfind": "find", "find": "rfind", "lstrip": "strip", "startswith": "endswith"}
 
 
+OPS3 = False     # third operator set (--ops3): wrong-but-similar names / attributes / delimiter characters, first<->last element
 OPS2 = False     # second operator set (--ops2): forced conditions, dropped operands / keywords / method calls, ...
 
 
@@ -138,6 +139,39 @@ def mutants_of(path, src):
                 if isinstance(node, ast.Assign) and not all(isinstance(t, (ast.Subscript, ast.Attribute)) for t in node.targets):
                     continue        # removing a local binding gives NameError: killed trivially
                 add(node, "pass", f"{type(node).__name__.lower()} removed")
+    if OPS3:
+        out = []
+        pairs = [("user", "password"), ("raw_user", "raw_password"), ("username", "password"), ("path", "query"), ("query", "fragment"),
+                 ("scheme", "netloc"), ("encoded_host", "host"), ("orig_path", "join_path"), ("name", "suffix"),
+                 ("keep_query", "keep_fragment"), ("unsafe", "ignore"), ("safe", "protected"), ("idx", "start_pct"), ("host", "hostinfo"),
+                 ("userinfo", "hostinfo"), ("hostname", "port_str"), ("raw_host", "host"), ("netloc", "host"), ("key", "val"), ("k", "v")]
+        swap = {}
+        for a, b in pairs:
+            swap.setdefault(a, b)
+            swap.setdefault(b, a)
+        attr_pairs = {"_safe": "_protected", "_protected": "_safe", "_unsafe": "_ignore", "_ignore": "_unsafe", "_quoter": "_qs_quoter",
+                      "_qs_quoter": "_quoter", "_scheme": "_netloc", "_path": "_query", "raw_user": "raw_password", "raw_password": "raw_user"}
+        chars = {"/": "?", "?": "#", "#": "?", ":": "@", "@": ":", "[": "]", "]": "[", ".": "/", "%": "+", "+": "%", "&": "=", "=": "&", ";": "&"}
+        for node in ast.walk(tree):
+            if isinstance(node, ast.Name) and isinstance(node.ctx, ast.Load) and node.id in swap:
+                add(node, swap[node.id], f"name {node.id}->{swap[node.id]}")
+            elif isinstance(node, ast.Attribute) and isinstance(node.ctx, ast.Load) and node.attr in attr_pairs and \
+                    isinstance(node.value, ast.Name) and node.value.id in ("self", "other", "url"):
+                add(node, f"{node.value.id}.{attr_pairs[node.attr]}", f"attr .{node.attr}->.{attr_pairs[node.attr]}")
+            elif isinstance(node, ast.Constant) and isinstance(node.value, str) and len(node.value) == 1 and node.value in chars:
+                add(node, repr(chars[node.value]), f"char {node.value!r}->{chars[node.value]!r}")
+            elif isinstance(node, ast.Subscript) and isinstance(node.ctx, ast.Load) and isinstance(node.slice, ast.Constant) and node.slice.value == 0:
+                add(node, ast.unparse(ast.Subscript(value=node.value, slice=ast.UnaryOp(op=ast.USub(), operand=ast.Constant(value=1)), ctx=node.ctx)), "[0] -> [-1]")
+            elif isinstance(node, ast.Subscript) and isinstance(node.ctx, ast.Load) and isinstance(node.slice, ast.UnaryOp) and \
+                    isinstance(node.slice.op, ast.USub) and isinstance(node.slice.operand, ast.Constant) and node.slice.operand.value == 1:
+                add(node, ast.unparse(ast.Subscript(value=node.value, slice=ast.Constant(value=0), ctx=node.ctx)), "[-1] -> [0]")
+            elif isinstance(node, ast.Subscript) and isinstance(node.ctx, ast.Load) and isinstance(node.slice, ast.Slice) and node.slice.step is None:
+                sl = node.slice
+                one = lambda n: isinstance(n, ast.Constant) and n.value == 1
+                if one(sl.lower) and sl.upper is None:
+                    add(node, ast.unparse(ast.Subscript(value=node.value, slice=ast.Slice(lower=None, upper=ast.UnaryOp(op=ast.USub(), operand=ast.Constant(value=1)), step=None), ctx=node.ctx)), "[1:] -> [:-1]")
+                elif sl.lower is None and isinstance(sl.upper, ast.UnaryOp) and one(sl.upper.operand):
+                    add(node, ast.unparse(ast.Subscript(value=node.value, slice=ast.Slice(lower=ast.Constant(value=1), upper=None, step=None), ctx=node.ctx)), "[:-1] -> [1:]")
     # docstrings are not mutated
     doc = set()
     for node in ast.walk(tree):
@@ -288,12 +322,14 @@ def main():
     ap.add_argument("--seed", type=int, default=1)
     ap.add_argument("--out", default="/tmp/automut.jsonl")
     ap.add_argument("--ops2", action="store_true", help="second operator set instead of the first")
+    ap.add_argument("--ops3", action="store_true", help="third operator set instead of the first")
     ap.add_argument("--recheck", help="jsonl of an earlier sweep: re-run only the checks on its survivors (no test runs)")
     ap.add_argument("--only-silent", action="store_true", help="with --recheck: only the survivors no check reported then")
     a = ap.parse_args()
     allm = []
-    global OPS2
+    global OPS2, OPS3
     OPS2 = a.ops2
+    OPS3 = a.ops3
     if a.recheck:
         global SKIP_TESTS
         SKIP_TESTS = True
